@@ -53,7 +53,7 @@ theorem xmlEdits_eq (o : Opts) (orc : Oracle) (fp tp : List Nat) (ftag : Str) (f
       if XTree.eq (.mk ftag fattr ftext fcs) (.mk ttag tattr ttext tcs) then xMatch 0
       else elemScript (strEdits ftag ttag) (edits o orc (fp ++ [1]) (tp ++ [1]) fattr tattr) (textEdit ftext ttext)
         (kidsIx ftext) (kidsIx ttext)
-        (kidsScript fcs tcs (kidsTbl o orc fp tp (kidsIx ftext) (kidsIx ttext) fcs tcs)) := by
+        (kidsScript o fcs tcs (kidsTbl o orc fp tp (kidsIx ftext) (kidsIx ttext) fcs tcs)) := by
   rw [xmlEdits]
   have := attach_zipIdx_map fcs (fun fc c => tcs.zipIdx.map fun q =>
     xmlEdits o orc (fp ++ [kidsIx ftext, c]) (tp ++ [kidsIx ttext, q.2]) fc q.1) 0
